@@ -6,7 +6,7 @@ from core import cq, fr, fl, Raw, N
 import leafgen as lg
 
 ID = 'C03'
-GEN = ['kernels']
+GEN = ['kernels', 'constraints']
 PROPS = 'Props/C03.v'
 MODEL_VO = ['Model/Dev.v']
 SHARD = 12
